@@ -31,9 +31,6 @@ theorem restrict_append_gen : ∀ (p q : List Bool) (d : Nat) (S : List (Key × 
     have : d + 1 + xs.length = d + (xs.length + 1) := by omega
     rw [this]
 
-theorem bitsLt_irrefl : ∀ (a : List Bool), bitsLt a a = false
-  | [] => rfl
-  | x :: xs => by simp [bitsLt, bitsLt_irrefl xs]
 
 /-- neither smaller nor larger: equal -/
 theorem bitsLt_antisymm_eq : ∀ (a b : List Bool), bitsLt a b = false → bitsLt b a = false → a = b
